@@ -105,7 +105,8 @@ pub fn run(ctx: &Ctx) -> i32 {
                 pool.extend(crate::shapes::failure_shapes(&mut rng));
                 pool.push(crate::shapes::shared_tail_family(&mut rng));
                 pool.push(crate::shapes::trap_handler_family(&mut rng));
-                let i = rng.below(pool.len());
+                // (trap handlers are the only users of some register tables: give them weight)
+                let i = if rng.chance(0.4) { pool.len() - 1 } else { rng.below(pool.len()) };
                 acc.note("shapes", pool[i].name);
                 g.prog = pool.swap_remove(i).prog;
                 g.base = g.prog.clone();
@@ -152,6 +153,24 @@ pub fn run(ctx: &Ctx) -> i32 {
             let mut m = id;
             m.swap(SAVED[si] as usize, SAVED[(si + 1 + k % 11) % SAVED.len()] as usize);
             trials.push(("saved", m, rng.chance(0.3)));
+            if k % 5 == 4 {
+                // small hand-written programs: every rotation of the temporaries and of the saved
+                // registers, so that each register of a class takes the place of every other one
+                for r in 1..TEMPS.len() {
+                    let mut m = id;
+                    for (i, a) in TEMPS.iter().enumerate() {
+                        m[*a as usize] = TEMPS[(i + r) % TEMPS.len()];
+                    }
+                    trials.push(("temp", m, false));
+                }
+                for r in 1..SAVED.len() {
+                    let mut m = id;
+                    for (i, a) in SAVED.iter().enumerate() {
+                        m[*a as usize] = SAVED[(i + r) % SAVED.len()];
+                    }
+                    trials.push(("saved", m, false));
+                }
+            }
             for (class, regmap, rename_labels) in trials {
                 acc.evaluations += 1;
                 let mut labelmap = HashMap::new();
